@@ -1,6 +1,6 @@
 (* C02: generated deserializers decode every byte string as the specification prescribes.
    Statements only; proofs in Spec/WireThm*.v, Codec/Refine.v and Codec/RefineDes*.v. *)
-From Verif Require Import Wire WireThm WireThmRt WireThmExt WireThmValid Walker Refine RefineDesBase PrimsOn RefineDes WalkerBound InstancesC InstancesCpp InstancesPy InstancesTyped BulkArrays BulkArraysDes WireThmErr WalkerOpt WalkerOptThm InstancesOpt CppWalker CppWalkerThm CppWalkerInst PyDesWalker PyDesWalkerThm PyDesWalkerInst WalkerXDes RefineDesX WalkerXBound InstancesXDes CppWalkerConsumed.
+From Verif Require Import Wire WireThm WireThmRt WireThmExt WireThmValid Walker Refine RefineDesBase PrimsOn RefineDes WalkerBound InstancesC InstancesCpp InstancesPy InstancesTyped BulkArrays BulkArraysDes WireThmErr WalkerOpt WalkerOptThm InstancesOpt CppWalker CppWalkerThm CppWalkerInst PyDesWalker PyDesWalkerThm PyDesWalkerInst WalkerXDes RefineDesX WalkerXBound InstancesXDes CppWalkerConsumed InstancesCW.
 Local Open Scope nat_scope.
 
 (* the reported number of consumed bytes never exceeds the number supplied *)
@@ -269,6 +269,19 @@ Theorem c02_cpp_shaped_consumed_exact : forall Q (Wd : nat -> Prop) t bits v k,
 Proof. exact cpp_walk_des_consumed_exact. Qed.
 Print Assumptions c02_cpp_shaped_consumed_exact.
 
+(* AUDIT 2 (size_t width): the C deserializer instance for EVERY width M >= 2^16 of size_t (Codec/InstancesCW.v over Prims/CPrimsW.v),
+   in particular 32 bits; `c_prims` is M = 2^64 *)
+Theorem c02_c_walk_des_refines_W : forall M, (65536 <= M)%N -> forall (little : bool) t bits, wf_ty t = true ->
+  length bits mod 8 = 0 -> (N.of_nat (length bits + tsz t) < M)%N ->
+  walk_des (c_primsW M little) t bits = des_spec t bits.
+Proof. exact c_walk_des_refines_W. Qed.
+Print Assumptions c02_c_walk_des_refines_W.
+
+Theorem c02_c_walk_des_refines_32 : forall little t bits, wf_ty t = true -> length bits mod 8 = 0 ->
+  (N.of_nat (length bits + tsz t) < 2 ^ 32)%N -> walk_des (c_primsW (2 ^ 32) little) t bits = des_spec t bits.
+Proof. exact c_walk_des_refines_32. Qed.
+Print Assumptions c02_c_walk_des_refines_32.
+
 (* (E) TARGET-SHAPED deserialization walkers (audit C02 #3, C01 #4) instead of the C walker run over foreign primitives.
    C++ (Codec/CppWalker.v, lang/cpp/templates/deserialization.j2: reads always through getU*/getI*/getBit/getF*, `align_offset_to<8>`,
    nested sealed objects through `subspan()` advancing by the reported (clamped) size, delimited ones through
@@ -408,3 +421,19 @@ Theorem c02_r_prim_is_plan : forall P w sat buf cap off little,
   r_prim P PBool buf cap off = TplSem.exec_des_bool P (TplSem.plan_des_bool (TplSem.facts_int true sat w off little)) buf cap off.
 Proof. exact TplSem.r_prim_is_plan. Qed.
 Print Assumptions c02_r_prim_is_plan.
+
+(* ---- round 7: executable structural plans (the plan derived from the template IS the walker's composite field); C++ ---- *)
+From Verif Require TplSemCpp.
+Theorem c02_wd_field_delimited_is_exec : forall P f u fs x buf cap off, TplSem.c_delim f = true ->
+  wd_field P (wd_body P) (TComp u fs (Some x)) buf cap off =
+  TplSem.exec_des_field P (TplSem.plan_des_comp f) (wd_body P (TComp u fs (Some x))) buf cap off (TplSem.d_init off).
+Proof. exact TplSem.wd_field_delimited_is_exec. Qed.
+Print Assumptions c02_wd_field_delimited_is_exec.
+Theorem c02_wd_field_sealed_is_exec : forall P f u fs buf cap off, TplSem.c_delim f = false ->
+  wd_field P (wd_body P) (TComp u fs None) buf cap off =
+  TplSem.exec_des_field P (TplSem.plan_des_comp f) (wd_body P (TComp u fs None)) buf cap off (TplSem.d_init off).
+Proof. exact TplSem.wd_field_sealed_is_exec. Qed.
+Print Assumptions c02_wd_field_sealed_is_exec.
+Theorem c02_cpp_des_templates_are_walker_plans : TplSemCpp.cpp_des_templates_are_walker_plans_statement.
+Proof. exact TplSemCpp.cpp_des_templates_are_walker_plans. Qed.
+Print Assumptions c02_cpp_des_templates_are_walker_plans.
